@@ -7,7 +7,7 @@ compiles.  For each one the corresponding quick check must exit 1 with a VIOLATI
 must exit 0.  These are *my own* mutants (the independent ones are under /verif/seeded); they exist so that
 a change to the simulators that makes them blind is noticed.
 
-usage: sensitivity.py [C16|C17|C18|all]        exit 0 = every mutant detected and the clean tree passes
+usage: sensitivity.py [C05|C16|C17|C18|all]        exit 0 = every mutant detected and the clean tree passes
 """
 import subprocess
 import sys
@@ -27,6 +27,11 @@ MUTANTS = [
     ("C18", "symbol write error swallowed", "src/derivative.rs", '            write!(f, "{symbol}")?;\n        }\n        write!(f, "")', '            let _ = write!(f, "{symbol}");\n        }\n        write!(f, "")'),
     ("C18", "DualVec ignores an error while writing the real part", "src/dual_vec.rs", 'write!(f, "{}", self.re)?;\n        self.eps.fmt(f, "ε")', 'let _ = write!(f, "{}", self.re);\n        self.eps.fmt(f, "ε")'),
     ("C18", "Dual2Vec returns Ok after a failed first part", "src/dual2_vec.rs", 'self.v1.fmt(f, "ε1")?;', 'let _ = self.v1.fmt(f, "ε1");'),
+    # ---- C05: orientation / seeding (fault-free), variants drifting apart, state left behind by a failing closure ------
+    ("C05", "partial_hessian: unit directions of y assigned in reverse", "@patch", "/verif/tools/mutants05/m1_partial_hessian_y_seeds_reversed.diff", None),
+    ("C05", "third_partial_derivative_vec: a repeated index loses a seed", "@patch", "/verif/tools/mutants05/m2_repeated_index_loses_a_seed.diff", None),
+    ("C05", "second_derivative (infallible only) swaps its outputs", "@patch", "/verif/tools/mutants05/m3_infallible_second_derivative_swaps_outputs.diff", None),
+    ("C05", "a depth counter left set by a failing closure changes later calls (history-dependent) and breaks nested calls", "@patch", "/verif/tools/mutants05/m4_depth_counter_left_set_by_a_failing_closure.diff", None),
     # ---- C16: stored form (fault-free), and errors of the data format swallowed (only under a fault at the seam) ------
     ("C16", "Dual: result of one serialize_field ignored (hand-written Serialize)", "@patch", "/verif/tools/mutants16/m1_ser_field_error_ignored.diff", None),
     ("C16", "Dual2: real part stored under another name", "@patch", "/verif/tools/mutants16/m2_field_renamed.diff", None),
@@ -116,7 +121,7 @@ def main():
     # every check run rewrites the evidence file; the committed evidence must describe the clean tree
     atexit.register(lambda: (shutil.copytree(backup, "/verif/evidence", dirs_exist_ok=True), shutil.rmtree(backup, ignore_errors=True)))
     ok = True
-    for prop in ("C16", "C17", "C18"):
+    for prop in ("C05", "C16", "C17", "C18"):
         if which in (prop, "all"):
             r = sh(["/verif/check.sh", prop, "quick"])
             good = r.returncode == 0 and "VIOLATION" not in r.stdout
